@@ -35,9 +35,11 @@ theorem Here.emit_encode {w : World} {P0 : List Op} {s : St} {d : Dec} (h : Here
   obtain ⟨h1, h2⟩ := h.emit (.encode fl fh ft) hp
   exact ⟨h1.1, h1.2, h2⟩
 
-theorem thetaStep_step (w : World) (P0 : List Op) (qn : Nat) :
-    StepV w P0 (fun e => Opus.CeltBandsEnc.thetaStep e qn) (fun d => Opus.CeltBands.thetaStep d qn) := by
-  intro e d
+theorem thetaStep_step (w : World) (P0 : List Op) (qn : Nat) (e : ESt) (d : BSt) :
+    Ext0 e.s (Opus.CeltBandsEnc.thetaStep e qn).2.s ∧
+    (Sim w P0 e d → w.IsPrefix (P0 ++ (Opus.CeltBandsEnc.thetaStep e qn).2.s.ops) →
+      (Opus.CeltBands.thetaStep d qn).1 = (Opus.CeltBandsEnc.thetaStep e qn).1 ∧
+      Sim w P0 (Opus.CeltBandsEnc.thetaStep e qn).2 (Opus.CeltBands.thetaStep d qn).2) := by
   refine ⟨Ext0.step _ _, fun hs hp => ?_⟩
   simp only [Opus.CeltBandsEnc.thetaStep] at hp ⊢
   obtain ⟨m1, m2, hn⟩ := hs.here.pop.emit_encode _ _ _ hp
@@ -53,22 +55,27 @@ theorem thetaStep_step (w : World) (P0 : List Op) (qn : Nat) :
   simp only [Opus.CeltBands.thetaStep, BSt.decode, BSt.update, hfs, hx]
   exact ⟨trivial, ⟨hn, hs.rem⟩⟩
 
-theorem thetaTri_step (w : World) (P0 : List Op) (qn : Nat) (heven : qn % 2 = 0) :
-    StepV w P0 (fun e => Opus.CeltBandsEnc.thetaTri e qn) (fun d => Opus.CeltBands.thetaTri d qn) := by
-  intro e d
+theorem thetaTri_step (w : World) (P0 : List Op) (qn : Nat) (heven : qn % 2 = 0) (e : ESt) (d : BSt) :
+    Ext0 e.s (Opus.CeltBandsEnc.thetaTri e qn).2.s ∧
+    (Sim w P0 e d → w.IsPrefix (P0 ++ (Opus.CeltBandsEnc.thetaTri e qn).2.s.ops) →
+      (Opus.CeltBands.thetaTri d qn).1 = (Opus.CeltBandsEnc.thetaTri e qn).1 ∧
+      Sim w P0 (Opus.CeltBandsEnc.thetaTri e qn).2 (Opus.CeltBands.thetaTri d qn).2) := by
   refine ⟨Ext0.step _ _, fun hs hp => ?_⟩
-  simp only [Opus.CeltBandsEnc.thetaTri] at hp ⊢
-  obtain ⟨m1, m2, hn⟩ := hs.here.pop.emit_encode _ _ _ hp
-  have m := And.intro m1 m2
-  have hleg := Here.legal_emit _ hp
-  generalize e.s.pop.1.toNat = x at *
-  have hxq : x ≤ qn := by
+  have hp' : w.IsPrefix (P0 ++ (e.s.pop.2.emit (.encode (Opus.CeltBandsEnc.triFl qn e.s.pop.1.toNat)
+      (Opus.CeltBandsEnc.triFl qn e.s.pop.1.toNat + Opus.CeltBandsEnc.triFs qn e.s.pop.1.toNat)
+      (Opus.CeltBandsEnc.triFt qn))).ops) := hp
+  obtain ⟨m1, m2, hn⟩ := hs.here.pop.emit_encode _ _ _ hp'
+  have hleg := Here.legal_emit _ hp'
+  have hxq : e.s.pop.1.toNat ≤ qn := by
     have := hleg.1
-    by_cases hc : x ≤ qn / 2
+    unfold Opus.CeltBandsEnc.triFs at this
+    by_cases hc : e.s.pop.1.toNat ≤ qn / 2
     · omega
-    · rw [if_neg hc, if_neg hc] at this; omega
-  generalize hfm : (RangeCoder.decode d.c ((qn / 2 + 1) * (qn / 2 + 1))).1 = fm at m
-  obtain ⟨t1, t2, t3⟩ := OpusProofs.Tri.tri_inv qn x fm heven hxq m.1 m.2
+    · rw [if_neg hc] at this; omega
+  have hft : Opus.CeltBandsEnc.triFt qn = (qn / 2 + 1) * (qn / 2 + 1) := rfl
+  rw [hft] at m1 m2
+  generalize hfm : (RangeCoder.decode d.c ((qn / 2 + 1) * (qn / 2 + 1))).1 = fm at m1 m2
+  obtain ⟨t1, t2, t3⟩ := OpusProofs.Tri.tri_inv qn e.s.pop.1.toNat fm heven hxq m1 m2
   have hdec : (Opus.CeltBands.thetaTri d qn).1 = OpusProofs.Tri.decIt qn fm ∧
       (Opus.CeltBands.thetaTri d qn).2.c = decUpdate (RangeCoder.decode d.c ((qn / 2 + 1) * (qn / 2 + 1))).2
         (OpusProofs.Tri.decFl qn fm) (OpusProofs.Tri.decFl qn fm + OpusProofs.Tri.decFs qn fm) ((qn / 2 + 1) * (qn / 2 + 1)) ∧
@@ -81,10 +88,10 @@ theorem thetaTri_step (w : World) (P0 : List Op) (qn : Nat) (heven : qn % 2 = 0)
   obtain ⟨d1, d2, d3⟩ := hdec
   rw [t1] at d1
   rw [t2, t3] at d2
-  refine ⟨d1, ⟨⟨hn.enc, ?_⟩, by rw [d3]; exact hs.rem⟩⟩
-  rw [d2]; exact hn.dec
+  refine ⟨d1, ⟨⟨hn.enc, ?_⟩, ?_⟩⟩
+  · rw [d2]; exact hn.dec
+  · rw [d3]; exact hs.rem
 
-#exit
 /-- the symbol of `compute_theta`; `qn` is 1 or even -/
 theorem thetaWrite_step (w : World) (P0 : List Op) (stereo : Bool) (N : Nat) (b : Int) (B0 qn : Nat)
     (hq : qn = 1 ∨ qn % 2 = 0) :
